@@ -484,6 +484,26 @@ async fn fee_transaction_pays_solver_and_routers() {
             b.generate().unwrap(); b.sign(&producer_sk);
             b
         };
+        // the same block with its fee transaction rewritten to pay an outsider (transaction and block re-signed by the producer)
+        {
+            let (outsider, _) = generate_keys();
+            let mut forged = block4.clone();
+            if let Some(k) = forged.transactions.iter().position(|tx| tx.transaction_type == TransactionType::Fee) {
+                for o in forged.transactions[k].to.iter_mut() { o.public_key = outsider; }
+                let h = crate::core::util::crypto::hash(&forged.transactions[k].serialize_for_signature());
+                forged.transactions[k].hash_for_signature = Some(h);
+                forged.transactions[k].sign(&producer_sk);
+                forged.merkle_root = [0; 32];
+                let _ = forged.generate();
+                forged.sign(&producer_sk);
+                let _ = forged.generate();
+                let fh = forged.hash;
+                let rf = t.add_block(forged).await;
+                if t.blockchain_lock.read().await.get_latest_block_hash() == fh {
+                    witness(format!("round {}: a block whose fee transaction was rewritten to pay an outsider key {} instead of what the payout rules give was accepted: {:?}", round, outsider.to_base58(), rf));
+                }
+            }
+        }
         let b4 = block4.clone();
         let r4 = t.add_block(block4).await;
         assert!(matches!(r4, AddBlockResult::BlockAddedSuccessfully(..)), "block 4 must be accepted: {:?}", r4);
@@ -712,4 +732,51 @@ async fn block_not_signed_by_its_creator_is_rejected_by_a_late_joiner() {
     let mut g = Block::deserialize_from_net(&genuine).unwrap(); g.generate().unwrap(); let gh = g.hash;
     let _ = j2.add_block(g).await;
     assert_eq!(j2.blockchain_lock.read().await.get_latest_block_hash(), gh, "the genuine block must be accepted by a late joiner");
+}
+
+/// C11 (recorded finding): before anything about a fetched block is validated, Block::generate builds the block's merkle
+/// tree — whose size must stay within what the buffer the block came in can account for. A transaction's
+/// txs_replacements field (a u32 straight off the wire) decides how many leaves it gets.
+#[test]
+fn merkle_tree_is_bounded_by_the_size_of_the_block() {
+    use crate::core::consensus::merkle::MerkleTree;
+    for replacements in [1u32, 2, 64, 200_000] {
+        let mut tx = Transaction::default();
+        tx.txs_replacements = replacements;
+        tx.hash_for_signature = Some([1; 32]);
+        let wire = tx.serialize_for_net().len();
+        let decoded = Transaction::deserialize_from_net(&tx.serialize_for_net()).unwrap();
+        let tree = MerkleTree::generate(&vec![decoded]).unwrap();
+        if tree.len() > wire {
+            witness(format!("a {}-byte transaction with txs_replacements={} makes MerkleTree::generate build {} leaves ({} with u32::MAX): a block of a few hundred bytes exhausts the node's memory in Block::generate, before any validation",
+                wire, replacements, tree.len(), u32::MAX));
+        }
+    }
+}
+
+/// C06: removing EVERY transaction of a signed block leaves header, signature and hash untouched — a full node must not
+/// accept the empty shell (the commitment is recomputed from what the block carries, also when it carries nothing)
+#[tokio::test]
+#[serial_test::serial]
+async fn block_stripped_of_all_its_transactions_is_refused() {
+    let mut a = TestManager::default();
+    a.initialize(100, 200_000_000_000_000).await;
+    let genesis = a.get_latest_block().await;
+    let wire = genesis.serialize_for_net(BlockType::Full);
+    let mut shell = Block::deserialize_from_net(&wire).unwrap();
+    shell.generate().unwrap();
+    let signed_hash = shell.hash;
+    shell.transactions.clear();
+    let mut received = Block::deserialize_from_net(&shell.serialize_for_net(BlockType::Full)).unwrap(); received.generate().unwrap();
+    assert_eq!(received.hash, signed_hash, "same identity");
+    let mut j = TestManager::default();
+    let res = j.add_block(received).await;
+    if j.blockchain_lock.read().await.get_latest_block_hash() == signed_hash {
+        witness(format!("a fresh full node accepts block 1 with all of its {} transactions removed after signing (same hash, same signature): add_block → {:?}", genesis.transactions.len(), res));
+    }
+    // control: the genuine block is fine
+    let mut k = TestManager::default();
+    let mut genuine = Block::deserialize_from_net(&wire).unwrap(); genuine.generate().unwrap();
+    let _ = k.add_block(genuine).await;
+    assert_eq!(k.blockchain_lock.read().await.get_latest_block_hash(), signed_hash, "setup: the genuine block is accepted by a fresh node");
 }
